@@ -18,13 +18,19 @@ def fired_by(args):
         if p.returncode:
             return d, None
         out = {}
+        import contextlib, io
+        from sa.main import run_property
+        from sa import main as _m
         for prop in sorted(CLAIMS):
-            c = subprocess.run([os.path.join(VERIF, 'check'), prop, '--no-write', '--root', dst], stdout=subprocess.PIPE, stderr=subprocess.STDOUT, text=True)
-            if c.returncode == 1:
-                rules = sorted({l.split(' — ')[1].strip() for l in c.stdout.splitlines() if l.startswith('  ') and ' — ' in l})
+            buf = io.StringIO()
+            with contextlib.redirect_stdout(buf):
+                rc, _ = run_property(prop, 'quick', dst, write=False, selftest=False, share=True)
+            if rc == 1:
+                rules = sorted({l.split(' — ')[1].strip() for l in buf.getvalue().splitlines() if l.startswith('  ') and ' — ' in l})
                 out[prop] = rules
-            elif c.returncode == 2:
+            elif rc == 2:
                 out[prop] = ['ANALYSIS-ERROR']
+        _m._REPOS.pop(dst, None)
         return d, out
     finally:
         shutil.rmtree(tmp, ignore_errors=True)
@@ -34,7 +40,8 @@ def main():
     ids = {}
     blind = {}
     for bl, pre in ((os.path.join(VERIF, 'seeded', 'wave3_blind_evaluation.log'), 'seeded/_incoming3/'),
-                    (os.path.join(VERIF, 'seeded', 'wave4_blind_evaluation.log'), 'seeded/_incoming4/')):
+                    (os.path.join(VERIF, 'seeded', 'wave4_blind_evaluation.log'), 'seeded/_incoming4/'),
+                    (os.path.join(VERIF, 'seeded', 'wave8_blind_evaluation.log'), 'seeded/_incoming8/')):
         if os.path.exists(bl):
             for line in open(bl):
                 if line.startswith(pre) and ':' in line:
@@ -42,8 +49,8 @@ def main():
                     k = k.split(' ')[0]
                     rest = rest.strip()
                     blind[os.path.join(VERIF, k)] = rest
-    # wave 1+2: ids Cxx-1..3; wave 3: ids Cxx-4, Cxx-5; wave 4: ids Cxx-6, Cxx-7
-    for sub, offset, wave in (('_incoming', 0, '1-2'), ('_incoming3', 3, '3'), ('_incoming4', 5, '4')):
+    # wave 1+2: ids Cxx-1..3; wave 3: ids Cxx-4, Cxx-5; wave 4: ids Cxx-6, Cxx-7; wave 8: ids Cxx-8, Cxx-9
+    for sub, offset, wave in (('_incoming', 0, '1-2'), ('_incoming3', 3, '3'), ('_incoming4', 5, '4'), ('_incoming8', 7, '8')):
         inc = os.path.join(VERIF, 'seeded', sub)
         if not os.path.isdir(inc):
             continue
@@ -75,7 +82,7 @@ def main():
         m = {
             'id': sid, 'property': prop, 'summary': meta.get('summary'), 'needs': meta.get('needs'), 'files': meta.get('files'),
             'author': 'independent sub-agent given only the property text and a scratch worktree',
-            'agent_ran': meta.get('ran'),
+            'agent_ran': meta.get('ran') or meta.get('agent_ran'),
             'confirmed_here': {
                 'demo_exit_on_unpatched_tree': conf.get('demo_clean_exit'), 'demo_exit_with_patch': conf.get('demo_patched_exit'),
                 'baseline_with_patch': 'missing=0 (264/264)' if conf.get('baseline_exit') == 0 else conf.get('baseline_tail'),
